@@ -99,3 +99,12 @@ claim("C07", "must-pass-through on MIR (validation dominates constant constructi
       "(division rounding, remainder sign, conversions) is not decided.",
       "trusted: rustc MIR, fact dumper; assumes validate_literal and canonical_felt252 implement the type ranges / the field correctly",
       "DESIGN.md section 4, C07")
+claim("C09", "call-graph reachability + panic-site inventory; interprocedural typestate dataflow of the parser look-ahead over MIR",
+      "(a) The multiset of panic-capable sites reachable from the lexing, parsing and formatting entry points inside cairo-lang-parser and "
+      "cairo-lang-formatter is contained in the recorded inventory (a new site is a violation; class-U rows are an inherited baseline that is "
+      "not individually triaged); (b) every Parser::take::<T>() is preceded on every path, with no possibly-consuming call in between, by a "
+      "test that the next terminal's kind is T::KIND (established locally, by the callers of the enclosing function, or per instantiation for "
+      "type parameters) - exactly what the function asserts; every use of the second look-ahead terminal is preceded by a non-EOF test." +
+      DECIDES + " Termination of the recovery loops, stack depth, and totality of semantic/lowering diagnostics on garbage are not decided.",
+      "trusted: rustc MIR, fact dumper; calls that take &mut Parser outside the non-consuming list are assumed to consume; class-U inventory rows carry no safety claim",
+      "DESIGN.md section 4, C09")
